@@ -3,6 +3,7 @@
 from __future__ import annotations
 
 import copy
+import os
 import re
 from fractions import Fraction
 
@@ -426,6 +427,65 @@ def invalid_spec(draw):
     return {"spec": d, "why": why}
 
 
+FUZZ_SCRIPT = os.path.join(boot.VERIF, "fuzz", "resources_fuzz.py")
+FUZZ_SEEDS = ["2GB|500MB", "1.5tb|10Kb", "2:00:00|10:00:00", "30:00|1:00:00:00", "0B|00:00"]
+FUZZ_DICT = ['"GB"', '"MB"', '"KB"', '"TB"', '"PB"', '"B"', '":"', '"|"', '"."', '"00"', '"59"']
+
+
+def body_fuzz(data) -> Outcome:
+    """thorough tier: one atheris run (coverage-guided) of fuzz/resources_fuzz.py"""
+    import importlib.util
+    import json
+    import subprocess
+    import sys
+
+    out = Outcome()
+    out.labels.append("corpus-" + data["corpus"])
+    if importlib.util.find_spec("atheris") is None:
+        out.labels.append("atheris-missing")
+        return out
+    work = boot.fresh_dir("rfuzz")
+    corpus = os.path.join(work, "corpus")
+    os.makedirs(corpus)
+    if data["corpus"] == "seeded":
+        for i, s in enumerate(FUZZ_SEEDS):
+            with open(os.path.join(corpus, f"seed{i}"), "w") as f:
+                f.write(s)
+    dict_path = os.path.join(work, "dict")
+    with open(dict_path, "w") as f:
+        f.write("\n".join(FUZZ_DICT) + "\n")
+    report = os.path.join(work, "report.json")
+    env = dict(os.environ, VERIF_REPO=boot.REPO, RESOURCES_FUZZ_REPORT=report, PYTHONHASHSEED="0")
+    cmd = [sys.executable, FUZZ_SCRIPT, f"-runs={int(data['runs'])}", f"-seed={int(data['seed'])}", "-max_len=40",
+           f"-dict={dict_path}", f"-artifact_prefix={work}/", corpus]  # fmt: skip
+    try:
+        p = subprocess.run(cmd, env=env, cwd=work, stdout=subprocess.PIPE, stderr=subprocess.STDOUT, text=True, timeout=900)
+        rc, log = p.returncode, p.stdout
+    except subprocess.TimeoutExpired:
+        rc, log = -9, ""
+        out.fail("fuzz-timeout", str(cmd))
+    rep = {}
+    if os.path.exists(report):
+        try:
+            with open(report) as f:
+                rep = json.load(f)
+        except ValueError:
+            rep = {}
+    boot.rm(work)
+    if rc == 4 or rep.get("atheris_missing"):
+        out.labels.append("atheris-missing")
+        return out
+    out.units = max(1, int(rep.get("execs", 0)))
+    out.nontrivial = rep.get("accepted_mem", 0) + rep.get("accepted_time", 0) >= 100
+    out.labels.append(f"accepted-mem-pairs>={min(int(rep.get('accepted_mem', 0)) // 1000 * 1000, 10000)}")
+    out.labels.append(f"accepted-time-pairs>={min(int(rep.get('accepted_time', 0)) // 1000 * 1000, 10000)}")
+    for bucket, info in sorted(rep.get("failures", {}).items()):
+        out.fail("fuzz-" + bucket, f"input {info.get('input')!r}: {info.get('detail')}")
+    if rc not in (0, 3) and not out.failures:
+        out.fail("fuzz-target-crashed", f"rc={rc} log tail: {log[-400:]}")
+    return out
+
+
 def campaigns(tier):
     ops = st.lists(resources_spec(rich=True), min_size=1, max_size=4)
     upd = st.dictionaries(
@@ -463,7 +523,11 @@ def campaigns(tier):
                  quick=2000, thorough=60000, describe="dict/from_dict round trip, to_slurm_options"),
         Campaign("invalid", body_invalid, invalid_spec(), quick=1500, thorough=40000,
                  describe="single-fault invalid constructions"),
-    ]  # fmt: skip
+    ] + ([
+        Campaign("fuzz", body_fuzz, st.fixed_dictionaries({"corpus": st.sampled_from(["empty", "seeded"]), "seed": st.integers(1, 2**31 - 1),
+                                                           "runs": st.just(150000)}),
+                 quick=0, thorough=8, shards_thorough=8, describe="atheris coverage-guided fuzzing of the memory/time validators (150k execs per run)"),
+    ] if tier == "thorough" else [])  # fmt: skip
 
 
 PREDICATES = {}
